@@ -3,7 +3,7 @@
    configuration, every behaviour of the modelled third-party code (RSA, serde), every
    adapter result and latency, every inbox of client frames and every timing. *)
 From Passage Require Import Lib.Bytes Codec.Desc Gen.PacketsGen Conn.Types Conn.Prog Conn.Sem1
-  Conn.Monitor Conn.MonitorProofs Conn.Order Conn.OrderProofs Conn.Checks Conn.Walk_C10.
+  Conn.Monitor Conn.MonitorProofs Conn.Order Conn.OrderProofs Conn.Checks Conn.Walk_C10 Crypto.Cookie Conn.CookieProofs.
 
 Theorem C10_walk : forall o cfg, safe (step_with (chk_c10 o cfg)) m_init (listen o cfg).
 Proof. exact listen_c10_safe. Qed.
@@ -20,6 +20,31 @@ Theorem C10_every_event_checked : forall o cfg e ib pre ev post,
     (internal_at (q st) ev = true \/ exists q', delta (q st) ev = Some q' /\ (chk_c10 o cfg) st ev = true).
 Proof. intros o cfg e ib pre ev post H. eapply accepted_event_checked; [apply c10_accepts | exact H]. Qed.
 
+(* the tag: sign then verify succeeds and returns the message; verify accepts nothing else *)
+Theorem C10_verify_sign : forall m s, verify (sign m s) s = (true, m).
+Proof. exact verify_sign. Qed.
+
+Theorem C10_verify_spec : forall p s m,
+  verify p s = (true, m) <->
+  (32 <= length p)%nat /\ m = skipn 32 p /\ firstn 32 p = Spec.Hmac.hmac_sha256 s (skipn 32 p).
+Proof. exact verify_spec. Qed.
+
+(* an issued cookie presented again from the same IP within the expiry on a Transfer-intent
+   connection is accepted as the very record that was issued (serde round trip assumed) *)
+Theorem C10_roundtrip : forall o cfg s c h proto host port now2,
+  cf_secret cfg = Some s ->
+  hs_fields h = Some (proto, host, port, 2) ->
+  auth_payload h = Some (sign (o_ser_auth o c) s) ->
+  newest_now h = Some now2 ->
+  o_parse_auth o (o_ser_auth o c) = JOk c ->
+  sa_ip (ac_addr c) = sa_ip (cf_client cfg) ->
+  now2 <= Z.min (ac_ts c + cf_expiry cfg) (2 ^ 64 - 1) ->
+  cookie_accepted o cfg h = Some c.
+Proof. exact cookie_roundtrip. Qed.
+
 Print Assumptions C10_walk.
+Print Assumptions C10_verify_sign.
+Print Assumptions C10_verify_spec.
+Print Assumptions C10_roundtrip.
 Print Assumptions C10_accepts.
 Print Assumptions C10_every_event_checked.
